@@ -231,6 +231,39 @@ pub fn build_cases(cfg: &Cfg) -> Vec<Case> {
             }
         }
     }
+    // hostile presentations (late collapse, redundant and trivial generators) with multi-generator subgroups
+    for (name, p) in groupcorpus::hostile_presentations(seed, cfg.tier.pick(300, 3000)) {
+        let n = p.ngens;
+        let fin = groups::order(&p, 3000).is_some();
+        if fin {
+            cases.push(Case { name: name.clone(), pres: p.clone(), subgens: vec![], known_order: None });
+        }
+        let words = words_upto(n, 3);
+        for _ in 0..cfg.tier.pick(3, 8) {
+            let k = 1 + rng.below(3);
+            let subs: Vec<Word> = (0..k).map(|_| words[rng.below(words.len())].clone()).collect();
+            cases.push(Case { name: name.clone(), pres: p.clone(), subgens: subs, known_order: None });
+        }
+    }
+    // larger finite groups with subgroups generated by 2-3 long words (coincidence cascades)
+    for g in groupcorpus::corpus() {
+        if let Some(o) = g.order {
+            if o >= 48 && o <= 1200 {
+                let n = g.pres.ngens as i64;
+                for _ in 0..cfg.tier.pick(150, 1500) {
+                    let k = 2 + rng.below(2);
+                    let subs: Vec<Word> = (0..k)
+                        .map(|_| {
+                            let len = if rng.chance(1, 2) { 2 + rng.below(4) } else { 6 + rng.below(25) };
+                            reduce(&(0..len).map(|_| { let x = rng.range(1, n); if rng.chance(1, 2) { x } else { -x } }).collect::<Word>())
+                        })
+                        .filter(|w| !w.is_empty())
+                        .collect();
+                    cases.push(Case { name: g.name.to_string(), pres: g.pres.clone(), subgens: subs, known_order: g.order });
+                }
+            }
+        }
+    }
     // random presentations: small groups with many coincidences
     for (k, p) in groupcorpus::random_presentations(seed, cfg.tier.pick(600, 6000)).into_iter().enumerate() {
         if groups::order(&p, 2000).is_some() {
